@@ -19,6 +19,18 @@ LEVEL = 'exploration'
 KNOWN = {}
 
 MODULE = 'checks.c17_bounded'
+# failure kinds (stable names):
+#   missing-entry              a notebook entry git reports is not yielded (CLI: no diff printed / no --out file written for it)
+#   extra-entry                a yielded pair corresponds to nothing git reports (e.g. an untracked or unchanged notebook)
+#   wrong-content              the right entry, but one side's stream differs from git's blob / the working file / the null file
+#   non-notebook-included      a non-*.ipynb file is yielded
+#   cwd-changed-after          os.getcwd() differs after the generator is exhausted (or after nbdiffapp.main returns)
+#   cwd-changed-during         os.getcwd() differs inside the consumer's loop body
+#   cwd-changed-after-abandon  os.getcwd() differs after break+close / break+del / an exception in the loop body / gen.throw
+#   filter-ignored             with a path filter: entries outside the filter are yielded, or entries inside it are missed
+#                              although the same filter spelled relative to the repository root (from the root) finds them
+#   cli-out-misplaced          nbdiffapp.main run from a sub-directory wrote its relative --out file somewhere else
+#   crash:<Exc>@<file>:<func>  changed_notebooks raised;  crash:cli:<...>  nbdiffapp.main raised / returned non-zero
 KINDS = ['missing-entry', 'extra-entry', 'wrong-content', 'non-notebook-included', 'cwd-changed-after',
          'cwd-changed-during', 'cwd-changed-after-abandon', 'filter-ignored', 'cli-out-misplaced', 'crash:<site>']
 ABANDON_MODES = ['break-close', 'break-del', 'raise-in-body', 'gen-throw']
@@ -426,7 +438,31 @@ def check_case(root, info, contents, case, modes):
 # ------------------------------------------------------------------------------------------------------
 # the command line path
 
-def check_cli(root, info, contents, cli):
+def _find_out(top, cwd_abs, name):
+    """every place the (uniquely named) --out file exists: the scratch tree, and -- should a mis-set cwd have escaped it --
+    the ancestors of the scratch directory"""
+    found = []
+    for d, dirs, files in os.walk(top):
+        if '.git' in dirs:
+            dirs.remove('.git')
+        if name in files:
+            found.append(os.path.join(d, name))
+    d = os.path.dirname(top)
+    while True:
+        if os.path.isfile(os.path.join(d, name)):
+            found.append(os.path.join(d, name))
+        if os.path.dirname(d) == d:
+            break
+        d = os.path.dirname(d)
+    return found
+
+
+def _rel(root, p):
+    r = os.path.relpath(p, root)
+    return '<repo>/' + ('' if r == '.' else r)
+
+
+def check_cli(top, root, info, contents, cli):
     """cli: {'kind','idx','refs','cwd','paths','out'}.  Run nbdime.nbdiffapp.main from a sub-directory."""
     from bounded import c17_repos as R
     import nbdime.nbdiffapp as app
@@ -439,10 +475,8 @@ def check_cli(root, info, contents, cli):
     fails = []
     lab = 'nbdiffapp.main(%r) from cwd=<repo>/%s' % (argv, cli['cwd'])
     want_out = os.path.join(cwd_abs, cli['out']) if cli['out'] else None
-    root_out = os.path.join(root, cli['out']) if cli['out'] else None
-    for p in (want_out, root_out):
-        if p and os.path.exists(p):
-            raise common.CheckerDefect('output file %s exists before the run' % p)
+    if cli['out'] and _find_out(top, cwd_abs, cli['out']):
+        raise common.CheckerDefect('output file %s exists before the run: %r' % (cli['out'], _find_out(top, cwd_abs, cli['out'])))
     so, se = sys.stdout, sys.stderr
     buf = io.StringIO()
     os.chdir(cwd_abs)
@@ -471,20 +505,27 @@ def check_cli(root, info, contents, cli):
             fails.append(('crash:cli:status', '%s returned status %r; output: %s' % (lab, status, buf.getvalue()[:200])))
             return fails, len(req)
         if cli['out']:
+            found = _find_out(top, cwd_abs, cli['out'])
+            elsewhere = [p for p in found if p != want_out]
             if req:
-                at_root = os.path.exists(root_out) and root_out != want_out
-                if not os.path.exists(want_out):
-                    where = ('it appeared in the repository root instead' if at_root else 'no such file was written there')
-                    fails.append(('cli-out-misplaced', '%s: with %d changed notebook(s) the relative --out file must be written below the '
-                                  'directory the command is run from; %s' % (lab, len(req), where)))
-                elif at_root:
-                    fails.append(('cli-out-misplaced', '%s: a copy of the --out file was written to the repository root' % lab))
+                if elsewhere:
+                    fails.append(('cli-out-misplaced', '%s: with %d changed notebook(s) the relative --out file must be written below the directory the '
+                                  'command is run from (<repo>/%s); it was written to %s%s' % (
+                                      lab, len(req), cli['cwd'], ', '.join(_rel(root, p) for p in elsewhere),
+                                      '' if want_out in found else ' instead')))
+                elif want_out not in found:
+                    e = req[0]
+                    fails.append(('missing-entry', '%s: no --out file was written anywhere although git reports %d changed notebook(s), e.g. %s %s -> %s'
+                                  % (lab, len(req), e['status'], e['a_path'], e['b_path'])))
                 else:
                     with open(want_out) as fh:
                         try:
                             json.load(fh)
                         except ValueError:
-                            fails.append(('cli-out-misplaced', '%s: --out file is not JSON' % lab))
+                            fails.append(('crash:cli:out-not-json', '%s: the --out file is not JSON' % lab))
+            elif found and not opt:
+                fails.append(('extra-entry', '%s: an --out file was written (%s) although git reports no changed notebook'
+                              % (lab, ', '.join(_rel(root, p) for p in found))))
         else:
             # one header per examined pair whose notebooks differ
             heads = [ln for ln in re.sub(r'\x1b\[[0-9;]*m', '', buf.getvalue()).split('\n') if ln.startswith('nbdiff ')]
@@ -494,20 +535,20 @@ def check_cli(root, info, contents, cli):
                 miss = [e for e in differing if not any(
                     (e['a'] == R.NULL or e['a_path'] in h) and (e['b'] == R.NULL or e['b_path'] in h) for h in heads)]
                 e = (miss or differing)[0]
-                kind = 'filter-ignored' if cli['paths'] else 'missing-entry'
-                fails.append((kind, '%s: printed %d diff header(s) for %d changed notebook(s) git reports, e.g. no diff for %s -> %s'
+                fails.append(('missing-entry', '%s: printed %d diff header(s) for %d changed notebook(s) git reports, e.g. no diff for %s -> %s'
                               % (lab, len(heads), len(differing), e['a_path'], e['b_path'])))
             elif len(heads) > len(differing) + len(maybe):
                 fails.append(('extra-entry', '%s: printed %d diff header(s), git reports only %d changed notebook(s): %r'
                               % (lab, len(heads), len(differing), heads[:4])))
     finally:
-        for p in (want_out, root_out):
-            if p and os.path.exists(p):
+        if cli['out']:
+            for p in _find_out(top, cwd_abs, cli['out']):
                 os.remove(p)
     return fails, len(req)
 
 
 def cli_cases(info, seed, cases_info, quick):
+    outname = 'c17-rel-%d.json' % seed
     """CLI invocations for this repository: --out from a sub-directory for commit/commit and commit/working tree (the
     latter is where nbdime switches directories), and one stdout run with a path filter."""
     rnd = random.Random(seed * 104729 + 5)
@@ -519,12 +560,12 @@ def cli_cases(info, seed, cases_info, quick):
     base = rnd.randrange(n)
     back = n - 1 - base
     spelled = 'HEAD' if back == 0 else 'HEAD~%d' % back
-    out.append({'kind': 'cw', 'idx': [base], 'refs': [spelled], 'cwd': subs[0], 'paths': None, 'out': 'rel.json'})
-    out.append({'kind': 'cc', 'idx': [0, n - 1], 'refs': [info['commits'][0], 'HEAD'], 'cwd': subs[1], 'paths': None, 'out': 'rel.json'})
+    out.append({'kind': 'cw', 'idx': [base], 'refs': [spelled], 'cwd': subs[0], 'paths': None, 'out': outname})
+    out.append({'kind': 'cc', 'idx': [0, n - 1], 'refs': [info['commits'][0], 'HEAD'], 'cwd': subs[1], 'paths': None, 'out': outname})
     out.append({'kind': 'cc', 'idx': [0, n - 1], 'refs': [info['commits'][0][:10], 'HEAD'], 'cwd': subs[2], 'paths': ['.'], 'out': None})
     if not quick:
         out.append({'kind': 'cw', 'idx': [0], 'refs': [info['commits'][0]], 'cwd': subs[3], 'paths': ['.'], 'out': None})
-        out.append({'kind': 'cw', 'idx': [base], 'refs': [spelled], 'cwd': '', 'paths': None, 'out': 'sub dir.json'.replace(' ', '_')})
+        out.append({'kind': 'cw', 'idx': [base], 'refs': [spelled], 'cwd': '', 'paths': None, 'out': outname})
     return out
 
 
@@ -567,17 +608,19 @@ def _job(job):
                                         'git_reports': ['%s %s -> %s' % (e['status'], e['a_path'], e['b_path']) for e in req + opt + skip][:8],
                                         'notebook_entries': nreq, 'modes': modes})
                     for kind, text in f:
+                        text = text.replace(root, '<repo>').replace(top, '<scratch>')
                         fails.append((kind, text, {'repo_seed': repo_seed, 'quick': quick, 'site': 'case', 'index': ci,
                                                    'modes': modes, 'kind': kind, 'case': case,
                                                    'history': info['log']}))
                 for xi, cli in enumerate(cli_cases(info, repo_seed, cases, quick)):
                     if only is not None and (only[0] != 'cli' or only[1] != xi):
                         continue
-                    f, nreq = check_cli(root, info, contents, cli)
+                    f, nreq = check_cli(top, root, info, contents, cli)
                     cnt += 1
                     if nreq:
                         keys.append((repo_seed, 'cli', xi))
                     for kind, text in f:
+                        text = text.replace(root, '<repo>').replace(top, '<scratch>')
                         fails.append((kind, text, {'repo_seed': repo_seed, 'quick': quick, 'site': 'cli', 'index': xi,
                                                    'kind': kind, 'case': cli, 'history': info['log']}))
             except R.HarnessError as exc:
@@ -603,7 +646,7 @@ def replay_case(where):
 
 def run_bounded(res):
     q = res.tier == 'quick'
-    nrepos = 48 if q else 480
+    nrepos = 48 if q else 160
     jobs = [(res.seed * 100003 + 17 * s + 1, q, None) for s in range(nrepos)]
     seen = set()
     for out in common.pmap(_job, jobs):
@@ -634,13 +677,15 @@ def run_bounded(res):
         'index/working tree; refs spelled as sha, short sha, HEAD~k, branch or tag; cwd in %s; paths None plus %s filters relative to the cwd (notebook in cwd, nested '
         'notebook, sub-directory with/without slash, any file, two paths, ".", never-existing name, "*.ipynb", "../"-path outside the cwd) passed as str/list/tuple. '
         'Each case: changed_notebooks consumed to exhaustion with the streams read inside the loop body and os.getcwd() sampled in the body and afterwards; '
-        'a random half of the cases with >=1 expected entry also abandon the generator after the first pair (break+close, break+del, exception raised in the '
+        'a random %s of the cases with >=1 expected entry also abandon the generator after the first pair (break+close, break+del, exception raised in the '
         'loop body, gen.throw). Oracle: `git diff --name-status -z [--cached] <full shas> -- <paths>` run from the same cwd, `git show <sha>:<path>` / '
-        '`git show :<path>` / the working-tree file; entries matched by the pair of contents (every written file version is unique). Command line: '
-        'nbdiffapp.main from a sub-directory with a relative --out (commit/working tree and commit/commit) and one stdout run with a path filter. '
+        '`git show :<path>` / the working-tree file; entries matched by the pair of contents (every written file version is unique). A missed entry under a filter is blamed on '
+        'the filter (filter-ignored) only if the same filter spelled relative to the repository root, from the root, finds it. Command line (3 per repository, 5 in thorough): '
+        'nbdiffapp.main from a sub-directory with a uniquely named relative --out (commit/working tree with the remote omitted, and commit/commit): the file must appear in that '
+        'sub-directory and nowhere else in the scratch tree or its ancestors; one run printing to stdout with the filter ".": one "nbdiff" header per changed notebook whose content differs. '
         'A case is non-trivial/distinct when git reports at least one changed notebook for its ref pair (with or without the filter); key = (repository seed, case number).'
         % (nrepos, 'up to 4 pairs' if q else 'up to 8 pairs', '1' if q else '3', '4 of 6 directories (root, one and two levels deep)' if q else 'all 6 directories (root, one and two levels deep)',
-           '2' if q else 'up to 5'))
+           '2' if q else 'up to 5', 'half' if q else '70%'))
     res.assumptions.append('bounded: only the stated small scope is explored')
     res.assumptions.append('git (the installed binary) is the reference for "what git reports as changed", including its default rename detection '
                            '(nbdime asks GitPython for -M, `git diff` defaults to diff.renames=true: same 50% threshold)')
